@@ -1,5 +1,6 @@
 import Heph.Proofs.MutationEq
 import Heph.Proofs.MutationMap
+import Heph.Proofs.MutationOverwrite
 import Heph.Spec.Mutation
 /-!
 # C04 — type overwriting injects exactly one real type error (partial)
@@ -85,14 +86,16 @@ def overwrite_one_site : Prop :=
       (q = overwriteAt s new p ∧ old ≠ new ∧
         ∃ sl, (s.path, sl) ∈ slots p ∧ slotOld s.field sl = some old)
 
-/-- **One site (soundness direction, the one the harness relies on).**  When the diff answers
-    `one s old new`: the second program IS the first one overwritten at `s` with `new`
-    (structurally equal), exactly one slot of the program differs, it is the slot at `s.path`,
-    and the change of that slot is classified as the permitted overwrite of field `s.field`
-    replacing `old` by `new`. -/
+/-- **One site (soundness direction, the one the harness relies on; the converse is the part of
+    `overwrite_one_site` that is not proved).**  When the diff answers `one s old new`: the second
+    program IS the first one overwritten at `s` with `new` (structurally equal); `old ≠ new`;
+    `old` is what the field `s.field` of the node at `s.path` held in the first program (the
+    recorded type of the variable / function, or the type argument at that index); exactly one
+    slot of the program differs, and it is that one. -/
 theorem overwrite_one_site_partial {p q : Program} {s : Site} {old new : Ty}
     (h : overwriteDiff p q = .one s old new) :
-    q = overwriteAt s new p ∧
+    q = overwriteAt s new p ∧ old ≠ new ∧
+    (∃ sl, (s.path, sl) ∈ slots p ∧ slotOld s.field sl = some old) ∧
     ∃ a b, slotDiffs (slots p) (slots q) = [(a, b)] ∧ a.1 = s.path ∧
       classify a.2 b.2 = some (s.field, old, new) := by
   unfold overwriteDiff at h
@@ -104,7 +107,10 @@ theorem overwrite_one_site_partial {p q : Program} {s : Site} {old new : Ty}
       split at h
       · rename_i heq
         cases h
-        exact ⟨(progEq_iff.1 heq).symm, a, b, hd, rfl, hc⟩
+        obtain ⟨hold, hne⟩ := classify_old hc
+        have hmem : (a, b) ∈ slotDiffs (slots p) (slots q) := by rw [hd]; simp
+        have ha : a ∈ slots p := (List.of_mem_zip (List.mem_filter.1 hmem).1).1
+        exact ⟨(progEq_iff.1 heq).symm, hne, ⟨a.2, ha, hold⟩, a, b, hd, rfl, hc⟩
       · cases h
     · cases h
   · cases h
